@@ -48,6 +48,11 @@ struct Pipeline {
         H->prepare();
         if (compute) H->compute();
     }
+    void build_hamiltonian(const boost::mpi::communicator& comm) {
+        H.reset(new Pomerol::Hamiltonian(*IC, *Storage, *S));
+        H->prepare(comm);
+        H->compute(comm);
+    }
     void build_dm(double beta) { DM.reset(new Pomerol::DensityMatrix(*S, *H, beta)); DM->prepare(); DM->compute(); }
     void build_ops() { Ops.reset(new Pomerol::FieldOperatorContainer(*IC, *S, *H)); Ops->prepareAll(); Ops->computeAll(); }
 
